@@ -20,7 +20,8 @@ def support_value(sup, selfv, fields, kind, rng):
     elif sup == 'nat':
         v = gen.obs_nat(rng)
     elif sup == 'nat_le_n':
-        v = rng.randint(0, p['n']) if p['n'] <= 255 or kind != 'u8' else rng.randint(0, 255)
+        cap = {'u8': 255, 'i8': 127}.get(kind, 10 ** 9)
+        v = rng.randint(0, min(p['n'], cap))
     elif sup == 'int':
         v = rng.choice([-1, 1]) * rng.randint(0, 15)
     elif sup == 'bool':
@@ -47,6 +48,22 @@ def support_value(sup, selfv, fields, kind, rng):
         v = p['loc'] + p['scale'] * z
     elif sup == 'du':
         v = rng.randint(p['a'], p['b'])
+    elif sup == 'catbool':
+        k = len(p.get('ln_weights') or p.get('alphas') or [0])
+        v = (rng.random() < 0.5) if k >= 2 else False
+    elif sup == 'simplex':
+        k = len(p['alphas']) if 'alphas' in p else p['k']
+        v = gen.simplex(rng, k)
+    elif sup == 'partition':
+        n = min(p['n'], 300) if 'n' in p else rng.randint(1, 40)
+        z, k = [], 0
+        for i in range(n):
+            j = rng.randint(0, k)
+            if j == k:
+                k += 1
+            z.append(j)
+        counts = [z.count(j) for j in range(k)]
+        v = (z, counts)
     else:
         raise KeyError(sup)
     if isinstance(v, float) and kind == 'f32':
